@@ -205,11 +205,11 @@ SPECS["C01"] = node_spec(
     acceptor="plog")
 
 SPECS["C02"] = node_spec(
-    "C02", [], "election_safety",
+    "C02", ["hard.role"], "election_safety",
     "Props/C02.v: in every execution of the abstract election protocol (any interleaving of campaigns, grants, hand-out/fsync of hard states, releases, duplicated/delayed/reordered messages, crashes at any point, restarts from the durable image; pre-vote/check-quorum/priority/transfer over-approximated by free choice) at most one node ever takes the leader role in a term when no single node is a quorum, and for every configuration (single-voter groups included) leaders with a durable own vote are unique per term and at most one node ever releases traffic as leader of a term; the role-level statement is refuted with an explicit witness for a single voter whose own vote need not be durable (the defect F1 found and fixed in /repo)." + P_NOTE,
     "the voter configuration is fixed within an execution: elections racing single-step or joint membership changes are not covered by the theorems (only by the pointwise differential and the monitor).",
     "DESIGN.md section 7, C02; section 2.2-2.3",
-    "Theorems: Props/C02.v over P/Election.v. Deciding tie: (B) acceptor on P-level traces (the pointwise differential (A) is diagnostic only for this property: a behaviour change that P still allows does not fail it).",
+    "Theorems: Props/C02.v over P/Election.v. Deciding ties: (B) acceptor on P-level traces; of the pointwise differential (A) only the ROLE counts for this property (a call after which the implementation is candidate / pre-candidate / leader / follower where the model says otherwise: that also covers elections racing membership changes, where P traces end); other differences in term/vote handling that P still allows do not fail it.",
     acceptor="pelection")
 
 SPECS["C06"] = node_spec(
